@@ -61,6 +61,12 @@ def jobs(tier, seed):
                 add(move, False, 3, fixed=slice_fixed(pref, 3, 2, False), slice=sname, cost=40)
             if tier == "thorough" or sname == "point0+alpha":
                 add(move, True, 3, fixed=slice_fixed(pref, 3, 2, True), slice=sname, cost=120)
+    # mixed per-point outlier probabilities: point 0 carries the `outlier_prob == 0` sentinel (its prior factor is 1 wherever it sits)
+    for move in ("dp", "prg"):
+        add(move, True, 2, fixed=slice_fixed(("x", "alpha"), 2, 2, True), slice="data+alpha", cost=5, no_prior=[0])
+        out[-1]["name"] += "-point0-without-outlier-prior"
+        add(move, True, 3, fixed=slice_fixed(("x0", "alpha"), 3, 2, True), slice="point0+alpha", cost=60, no_prior=[0])
+        out[-1]["name"] += "-point0-without-outlier-prior"
     for kern in PROPOSALS:
         for wiring in ("library", "run"):
             add("subtree", False, 2, kern=kern, wiring=wiring, cost=3)
@@ -101,7 +107,11 @@ def setup(job, vals=None):
         alpha = Lin(V(Fraction(fixed["alpha"]))) if "alpha" in fixed else Lin(V.var("alpha"))
         for i in range(n):
             dp = sym_dp(i, 1, G, fixed=fixed)
-            if outl and f"po{i}" in fixed:
+            if outl and i in (job.get("no_prior") or []):
+                pass                                   # DataPoint defaults: outlier_prob = 0 (sentinel), outlier_prob_not = 1
+            elif outl and job.get("p_one"):
+                dp.outlier_prob, dp.outlier_prob_not = Log(V(1)), Log(V(0))
+            elif outl and f"po{i}" in fixed:
                 dp.outlier_prob, dp.outlier_prob_not = Log(V(Fraction(fixed[f"po{i}"]))), Log(V(Fraction(fixed[f"pn{i}"])))
             elif outl:
                 po = V.var(f"po{i}")
@@ -112,7 +122,9 @@ def setup(job, vals=None):
         alpha = float(Fraction(vals.get("alpha", 1)))
         for i in range(n):
             dp = float_dp(i, 1, G, vals)
-            if outl:
+            if outl and job.get("p_one"):
+                dp.outlier_prob, dp.outlier_prob_not = 0.0, -math.inf
+            elif outl and i not in (job.get("no_prior") or []):
                 dp.outlier_prob = math.log(float(Fraction(vals.get(f"po{i}", "1/5"))))
                 dp.outlier_prob_not = math.log(float(Fraction(vals.get(f"pn{i}", "4/5"))))
             dps.append(dp)
@@ -219,7 +231,7 @@ def work(job):
 
     def cex(kind, model=None, **kw):
         c = {"kind": kind, "finding_key": fk + (":" + kind if kind != "not-invariant" else ""),
-             "job": {k: job.get(k) for k in ("move", "kernel", "wiring", "outliers", "thr", "N", "n", "G", "fixed")}}
+             "job": {k: job.get(k) for k in ("move", "kernel", "wiring", "outliers", "thr", "N", "n", "G", "fixed", "no_prior")}}
         c["values"] = model_values(model) if model is not None else {}
         c.update(kw)
         res["cex"].append(c)
